@@ -481,6 +481,14 @@ def run(ctx, chk, tier="quick"):
                     continue
                 if it.args:
                     p = s.path_of(it.args[0])
+                    vc = _value_changing_helper(ctx, f, it.args[0]) if p is None else None
+                    if vc is not None:
+                        hf_, c_ = vc
+                        chk.ob("C19.O7", False, where_of(f, it.node), "%s: %s written from %s, which passes the value through %s" % (section, key, ast.unparse(it.args[0])[:60], ast.unparse(c_)[:50]),
+                               "the original value of %s.%s, written as it was read" % (section, key),
+                               key="%s|%s|%s|%s|value|%s" % (f.qualname, sy, tr, section, key), local=True,
+                               why="filling the template's placeholders with the original values must give back an equivalent parameter file: a fixed value that is clipped, rounded or floored on its way into the template differs from the one in the file whenever it lies outside the range the helper allows")
+                        continue
                     chk.ob("C19.O7", p == "%s.%s" % (section, key) and "{0}" in rest, where_of(f, it.node),
                            "%s: %s written from %s" % (section, key, p), "the original value of %s.%s" % (section, key),
                            key="%s|%s|%s|%s|value|%s" % (f.qualname, sy, tr, section, key))
@@ -490,6 +498,34 @@ def run(ctx, chk, tier="quick"):
                 ok = it.template.strip() == "- {0}" and isinstance(it.args[0], ast.Name) and it.args[0].id == getattr(it, "value_var", None)
                 chk.ob("C19.O7", ok, where_of(f, it.node), "list %s written as %r" % (it.source_path, it.template), "one '- value' line per original element",
                        key="%s|%s|%s|list|%s" % (f.qualname, sy, tr, it.source_path))
+
+
+def _value_changing_helper(ctx, f, e):
+    """e = H(...) with H a function of the package whose returned value passes through min / max / clip / round / abs of
+    something derived from its parameters: (H, the value-changing call), else None."""
+    if not isinstance(e, ast.Call):
+        return None
+    try:
+        tg = ctx.cg.resolve_callee(f, e.func)
+    except Exception:
+        return None
+    hf = ctx.cg.func(tg[0]) if len(tg) == 1 else None
+    if hf is None:
+        return None
+    from ..flow import Flow as _Flow
+    hflow = _Flow.of(hf)
+    params = set(hf.params)
+    for r in ast.walk(hf.node):
+        if not (isinstance(r, ast.Return) and r.value is not None):
+            continue
+        ex = hflow.expand(r.value, keep=params)
+        for c in ast.walk(ex):
+            if isinstance(c, ast.Call):
+                nm = c.func.attr if isinstance(c.func, ast.Attribute) else (c.func.id if isinstance(c.func, ast.Name) else "")
+                if nm in ("min", "max", "clip", "round", "around", "abs", "fabs", "floor", "ceil", "trunc", "maximum", "minimum", "nan_to_num") \
+                        and any(isinstance(x, ast.Name) and x.id in params for x in ast.walk(c)):
+                    return hf, c
+    return None
 
 
 def _expr(e):
